@@ -93,9 +93,10 @@ def jobs(tier, seed):
         for fin in FINALS:
             for n in range(1, (3 if tier == 'quick' else 4) + 1):
                 if tier == 'quick':
-                    if fin == 'A' and (n > 1 or len(h) > 1):
+                    stored = 'pAs' in h         # the history left stored tag scores behind: the tagging predictor without score storing must cope with them
+                    if fin == 'A' and not stored and (n > 1 or len(h) > 1):
                         continue
-                    if n == 3 and not (h in deep and fin == 'As'):
+                    if n == 3 and not ((h in deep and fin == 'As') or (stored and fin == 'A' and 'fill' in h)):
                         continue
                 js.append({'name': 'hist/%s/%s/n%d' % ('+'.join(h) or 'none', fin, n), 'hist': list(h), 'final': fin, 'n': n, 'seed': seed})
     js.sort(key=lambda j: -j['n'])
